@@ -350,3 +350,7 @@ def run(res, ctx):
         "traces_validated_against_impl": st["evaluations"],
     })
     res.assumptions += ["'whatever the bytes' for csv / regex / json / clap / office / lopdf / tabled is exercised by fuzzing only (testing, not proof); stack / heap exhaustion is not covered"]
+
+
+def replay(res, ctx, path):
+    return corecheck.replay(res, ctx, path)
